@@ -80,3 +80,10 @@ Definition dropZ (i : Z) (l : str) := skipn (Z.to_nat i) l.
 (** What remains to be read from a chunked state. *)
 Definition absr (s : chk) : str := dropZ (idx s + 1) (cur s) ++ concat (more s).
 Definition R (l : str) (s : chk) : Prop := -1 <= idx s /\ l = absr s.
+
+(** Number of character reads ([_next_char] calls) a program performs on a flat input. *)
+Fixpoint reads {A} (p : Prog A) (l : str) : nat :=
+  match p with
+  | Ret _ => O
+  | Next u k => let '(c, l') := fnext l in S (reads (k c) (if u c then fback c l' else l'))
+  end.
